@@ -247,6 +247,43 @@ def histories(ctx):
         yield (cls, dy(ctx.rng, 0, 4), t, r, tx, ops, "random")
 
 
+def decimal_histories(ctx):
+    """Exchangent with its class defaults Timeout 0.5 / RedoTimeout 0.1 (0.1 is NOT a dyadic float).
+    Times are decimal ticks (multiples of 1/200 s): the model computes with the exact rationals, the
+    implementation with binary64.  A history is kept only if every comparison the code makes
+    (stamp >= timer.stop, stamp >= redoTimer.stop) has an exact margin >= 1/1000 s, far above the
+    accumulated float error (< 1e-12), so both must take the same branches.
+    yields (timeout, redo, ops, exact_steps)"""
+    steps = ["0.03", "0.07", "0.015", "0.045", "0.125", "0.15", "0.035", "0.26", "0.005"]
+    n_ok = 0
+    for _ in range(ctx.n(4000, 40000)):
+        if n_ok >= ctx.n(250, 2500):
+            break
+        t = ctx.rng.choice([None, None, 0.0, 0.3, 0.7])
+        r = ctx.rng.choice([None, None, None, 0.2])
+        T = Fraction(str(t)) if t is not None else Fraction(1, 2)
+        R = Fraction(str(r)) if r is not None else Fraction(1, 10)
+        seq = [ctx.rng.choice(steps) for _ in range(ctx.rng.randint(1, 14))]
+        st, last, ok = Fraction(0), Fraction(0), True
+        for d in seq:
+            st += Fraction(d)
+            if T > 0 and abs(st - T) < Fraction(1, 1000):
+                ok = False
+            if R > 0:
+                if abs(st - (last + R)) < Fraction(1, 1000):
+                    ok = False
+                if st >= last + R and not (T > 0 and st >= T):
+                    last = st
+        if not ok:
+            continue
+        n_ok += 1
+        ops = []
+        for d in seq:
+            ops.append(("adv", float(d)))
+            ops.append(("proc",))
+        yield t, r, ops, seq
+
+
 def schedules(ctx):
     """(cls, stamp0, timeout, redo, sched) for the implementation-only property search"""
     for cls in ("Exchanger",):
@@ -267,8 +304,9 @@ def run(ctx):
     ctx.assumptions = [
         "stack double: .stamper is a real ioflo Stamper, transmit()/message() record the packet; device double has .name/.ha "
         "(Exchange.process formats self.device.name, so device=None would raise AttributeError: outside the statement)",
-        "dyadic times (k/8): binary64 arithmetic exact = Q; Exchangent is only run with an explicit redo timeout "
-        "(its class default 0.1 is not dyadic)",
+        "dyadic times (k/8): binary64 arithmetic exact = Q.  Exchangent's class default redo 0.1 is not dyadic: "
+        "it is covered by decimal-tick histories (steps multiples of 1/200 s, model exact in Q, every comparison "
+        "margin >= 1/1000 s checked with exact rationals in the harness, discrete observations compared)",
         "the driver of the property (who calls process) is the harness: after every stamp advance, while not done",
     ]
     info = gen(ctx)
@@ -302,7 +340,31 @@ def run(ctx):
     for i in bad[:5]:
         ctx.tie_broken("correspondence", "C38 model vs ioflo.aio.proto.exchanging",
                        "history=%r impl=%r" % (metas[i][:6], metas[i][6:]))
-    ctx.extra["mismatches"] = len(bad)
+    # Exchangent class defaults (non-dyadic 0.1): decimal tick model, discrete observations only
+    dcases, dmetas = [], []
+    for t, r, ops, seq in decimal_histories(ctx):
+        res = run_impl("Exchangent", 0.0, t, r, 5, ops)
+        ctx.case({"cls": "Exchangent", "timeout": t, "redo": r, "steps": seq}, nontrivial=True,
+                 kind="Exchangent/decimal-defaults")
+        if res[0] == "ctor-error":
+            ctx.tie_broken("correspondence", "C38 constructor", "Exchangent(timeout=%r, redo=%r) raised %s" % (t, r, res[1]))
+            continue
+        cops = []
+        for o, d in zip(ops[0::2], seq):
+            cops += ["Adv %s" % cq(Fraction(d)), "Proc"]
+        cases_expr = ("fst (x_run (1#2) (1#10) 0 %s %s (Some 5%%Z) %s)"
+                      % (copt(t, lambda v: cq(Fraction(str(v)))), copt(r, lambda v: cq(Fraction(str(v)))),
+                         clist(cops, "op")))
+        dcases.append((cases_expr, clist([c_obs(o) for o in res[0]], "obs")))
+        dmetas.append((t, r, seq, res[0]))
+    dbad = ctx.coq_cases(HEADER, "ol_eqb", dcases, shard=200, name="dcases")
+    for i in dbad[:3]:
+        ctx.tie_broken("correspondence", "C38 model vs Exchangent with class defaults (decimal ticks)",
+                       "timeout=%r redo=%r steps=%r impl=%r" % dmetas[i])
+    ctx.extra["mismatches"] = len(bad) + len(dbad)
+    ctx.extra["decimal_default_histories"] = len(dcases)
+    ctx.extra["decimal_retransmissions_seen"] = sum(len(o[0]) for m in dmetas for o in m[3])
+    ctx.extra["decimal_failed_seen"] = sum(1 for m in dmetas if m[3] and m[3][-1][2])
     ctx.extra["ctor_errors"] = len(ctor_errors)
     ctx.exhaustive = False
 
